@@ -69,6 +69,7 @@ let () =
     | ["AP"; p] ->
         let shw = function ROk rs -> "ok:" ^ String.concat "," (List.sort compare (List.map rhex rs)) | RErr -> "err" in
         Printf.printf "AP usk=%s enc=%s|%s\n" (shw (usk_rights fx !s.st_msk.m_st (str_of_tok p))) (shw (enc_rights fx !s.st_msk.m_st (str_of_tok p))) (dump_msk !s.st_msk)
+    | "RFX" :: k :: _
     | "RFBAD" :: k :: _ ->
         (* a copy of an issued key with an altered signature: the ideal MAC rejects it; nothing changes (C08/C10/C17) *)
         if !s.st_usks = [] then Printf.printf "NOIDX|%s\n" (dump_msk !s.st_msk)
